@@ -158,6 +158,7 @@ class Emitter:
         self.forwards = {}      # id(forward) -> number
         self.forward_defs = {}  # number -> name of inner
         self.in_progress = set()
+        self.keepalive = []     # ids are only unique among live objects
         self.classes = {}
 
     def attrs(self, e):
@@ -286,6 +287,7 @@ class Emitter:
     def ref(self, e):
         if id(e) in self.by_id:
             return self.by_id[id(e)]
+        self.keepalive.append(e)
         core, origtext = self.core(e)
         if origtext:
             # the And node's own attributes, minus its (library) action which POrigText stands for
@@ -354,7 +356,7 @@ def generate():
     for modname in ('generic', 'common', 'column', 'table', 'index', 'enum', 'reference', 'table_group', 'project', 'sticky_note'):
         mod = importlib.import_module('pydbml.definitions.' + modname)
         for k, v in sorted(vars(mod).items()):
-            if isinstance(v, pp.ParserElement) and not k.startswith('__') and getattr(v, '__module__', None) is None:
+            if isinstance(v, pp.ParserElement) and not k.startswith('__'):
                 if isinstance(v, pp.Forward):
                     continue
                 c = v.copy()
